@@ -497,6 +497,27 @@ impl Worker {
 
     async fn run_scenario(&mut self, sc: &Scenario) -> Result<bool, Mismatch> {
         let world_dir = self.dir.join("world");
+        if sc.kind.starts_with("git") && !sc.base.is_empty() {
+            // A git handle keeps state in memory (the cached meta, the key): the base is executed through the SAME handles the
+            // sequence then uses, not restored from a template with fresh handles -- a handle left stale by the base is the point.
+            let mut w = match fresh_world(&world_dir, &sc.kind).await {
+                Ok(w) => w,
+                Err(e) => return Err(mm(sc, "setting up the backend".into(), e, "backend opens".into())),
+            };
+            let mut ch = Chain { unknown: Uuid::from_u128(0xdead_0000_0000_4000_8000_0000_0000_0001), ..Default::default() };
+            for c in &sc.base {
+                if !step(&mut w, &mut ch, sc, "base", c).await? {
+                    return Ok(true);
+                }
+            }
+            for (i, c) in sc.seq.iter().enumerate() {
+                if !step(&mut w, &mut ch, sc, &format!("call #{i}"), c).await? && !sc.walk {
+                    return Ok(true);
+                }
+            }
+            walk_all(&mut w, &mut ch, sc).await?;
+            return Ok(false);
+        }
         let key = format!("{}-{}", sc.kind, serde_json::to_string(&sc.base).unwrap());
         let tdir = self.dir.join(format!("tmpl-{}", self.templates.len()));
         if !self.templates.contains_key(&key) {
@@ -918,7 +939,7 @@ fn main() {
     // C11: every git command of add_version / add_snapshot on handle 0 fails in turn (three ways), every handle restarts, and the
     // protocol must still hold while both replicas go on adding versions
     if only.as_deref().map(|o| o.split(',').any(|k| k == "git-fault")).unwrap_or(false) {
-        let kmax = if thorough { 16usize } else { 9usize };
+        let kmax = if thorough { 16usize } else { 7usize };
         let fb = bases("git-fault");
         let follow: Vec<Vec<Call>> = vec![
             vec![Call::Add(1, P::Last, 1), Call::Add(0, P::Last, 3), Call::GetChild(1, P::Prev)],
@@ -933,9 +954,7 @@ fn main() {
             for k in 1..=kmax {
                 for mode in &modes {
                     for (fi, f) in follow.iter().enumerate() {
-                        if !thorough && fi == 1 && *mode != "after" {
-                            continue;
-                        }
+                        let _ = fi;
                         let mut seq = vec![Call::FaultAdd(P::Last, 1, k, mode.to_string())];
                         if base.is_empty() {
                             seq = vec![Call::FaultAdd(P::Nil, 1, k, mode.to_string())];
